@@ -71,13 +71,13 @@ static int cmp_int (const void* a, const void* b) { return *(const int*)a - *(co
 static void dump_children (hawk_val_t* v)
 {
 	static int ch[65536]; int n = 0, i;
+	/* the elements are read with the embedding API (map iteration, hawk_rtx_getarrvalfld), not by reaching into the container */
 	if (v->v_type == HAWK_VAL_MAP)
 	{
-		hawk_map_itr_t itr; hawk_map_pair_t* pair; hawk_map_t* map = ((hawk_val_map_t*)v)->map;
-		hawk_init_map_itr (&itr, 0);
-		for (pair = hawk_map_getfirstpair(map, &itr); pair; pair = hawk_map_getnextpair(map, &itr))
+		hawk_val_map_itr_t itr, * it;
+		for (it = hawk_rtx_getfirstmapvalitr(rtx, v, &itr); it; it = hawk_rtx_getnextmapvalitr(rtx, v, &itr))
 		{
-			hawk_val_t* iv = (hawk_val_t*)HAWK_MAP_VPTR(pair);
+			hawk_val_t* iv = (hawk_val_t*)HAWK_VAL_MAP_ITR_VAL(it);
 			int id = id_of(iv);
 			if (id >= 0) ch[n++] = id;
 			else if (gen_of(iv) >= 0) ch[n++] = 888888; /* chained container the harness does not know */
@@ -89,9 +89,8 @@ static void dump_children (hawk_val_t* v)
 		hawk_arr_t* arr = ((hawk_val_arr_t*)v)->arr; hawk_oow_t k;
 		for (k = 0; k < HAWK_ARR_SIZE(arr); k++)
 		{
-			hawk_val_t* iv; int id;
-			if (!HAWK_ARR_SLOT(arr, k)) continue;
-			iv = (hawk_val_t*)HAWK_ARR_DPTR(arr, k);
+			hawk_val_t* iv = hawk_rtx_getarrvalfld(rtx, v, (hawk_ooi_t)k); int id;
+			if (!iv) continue;
 			id = id_of(iv);
 			if (id >= 0) ch[n++] = id;
 			else if (gen_of(iv) >= 0) ch[n++] = 888888;
@@ -264,8 +263,23 @@ int main (int argc, char** argv)
 		else if (!rtx) { printf("bad-op\n"); }
 		else if (!strcmp(op, "alloc") && sscanf(line, "%*s %31s", a1) == 1)
 		{
-			hawk_val_t* v; ent_t* e; int is_arr = (a1[0] == 'a'); int i;
-			v = is_arr ? hawk_rtx_makearrval(rtx, -1) : hawk_rtx_makemapval(rtx);
+			hawk_val_t* v; ent_t* e; int is_arr = (a1[0] == 'a'); int with_data = (a1[0] == 'd'); int i;
+			if (with_data)
+			{
+				/* hawk_rtx_makemapvalwithdata: the map comes with its two leaf elements */
+				static hawk_ooch_t k1[] = { 'k', '-', '1', 0 }, k2[] = { 'k', '-', '2', 0 };
+				static hawk_int_t iv = 123456789012345L;
+				static hawk_ooch_t k3[] = { 'k', '-', '3', 0 }, k4[] = { 'k', '-', '4', 0 }, sv[] = { 'o', 'o', 'c', 's', 0 };
+				static hawk_flt_t fv = 2.5; static hawk_oocs_t ocs = { sv, 4 };
+				hawk_val_map_data_t md[4];
+				memset (md, 0, sizeof(md));
+				md[0].key.ptr = k1; md[0].key.len = 3; md[0].type = HAWK_VAL_MAP_DATA_BCSTR; md[0].vptr = "leaf-value-of-some-length";
+				md[1].key.ptr = k2; md[1].key.len = 3; md[1].type = HAWK_VAL_MAP_DATA_INT; md[1].type_size = sizeof(iv); md[1].vptr = &iv;
+				md[2].key.ptr = k3; md[2].key.len = 3; md[2].type = HAWK_VAL_MAP_DATA_FLT; md[2].vptr = &fv;
+				md[3].key.ptr = k4; md[3].key.len = 3; md[3].type = HAWK_VAL_MAP_DATA_OOCS; md[3].vptr = &ocs;
+				v = hawk_rtx_makemapvalwithdata(rtx, md, 4);
+			}
+			else v = is_arr ? hawk_rtx_makearrval(rtx, -1) : hawk_rtx_makemapval(rtx);
 			if (!v || ntab >= MAXOBJ) { printf("alloc-failed\n"); fflush(stdout); return 2; }
 			hawk_rtx_refupval (rtx, v);
 			/* objects freed by a collection inside the allocation may have had this address */
@@ -273,6 +287,7 @@ int main (int argc, char** argv)
 			e = &tab[ntab]; memset (e, 0, sizeof(*e));
 			e->ptr = v; e->live = 1; e->is_arr = is_arr; e->holders = 1; e->nextkey = 0; e->nslots = 0;
 			/* leaf elements as in `x[1] = "leaf"`: a heap string and a small integer */
+			if (!with_data)
 			{
 				hawk_val_t* s = hawk_rtx_makestrvalwithbcstr(rtx, "leaf-value-of-some-length");
 				hawk_val_t* iv = hawk_rtx_makeintval(rtx, 123456789012345L);
@@ -327,6 +342,20 @@ int main (int argc, char** argv)
 				if (p->is_arr) hawk_arr_clear (((hawk_val_arr_t*)p->ptr)->arr);
 				else hawk_map_clear (((hawk_val_map_t*)p->ptr)->map);
 				printf("r=ok"); dump ();
+			}
+		}
+		else if (!strcmp(op, "take") && sscanf(line, "%*s %ld %ld", &x, &y) == 2)
+		{
+			/* an embedding host fetches an element with the API (borrowed pointer) and takes its own reference */
+			int si;
+			if (!LIVE(x) || (si = find_slot(&tab[x], (int)y)) < 0) { printf("r=ERR"); dump (); }
+			else
+			{
+				ent_t* p = &tab[x]; hawk_val_t* got;
+				if (p->is_arr) got = hawk_rtx_getarrvalfld(rtx, p->ptr, (hawk_ooi_t)p->key[si]);
+				else { hawk_ooch_t kb[32]; hawk_oow_t kl; mkkey (p->key[si], kb, &kl); got = hawk_rtx_getmapvalfld(rtx, p->ptr, kb, kl); }
+				if (!LIVE(y) || got != tab[y].ptr) { printf("take-mismatch\n"); }
+				else { hawk_rtx_refupval (rtx, got); tab[y].holders++; printf("r=ok"); dump (); }
 			}
 		}
 		else if (!strcmp(op, "root") && sscanf(line, "%*s %ld", &x) == 1)
